@@ -149,59 +149,53 @@ def run(ctx, chk):
 
 
 def translate(ctx, chk, ref):
-    """the character-mapping closure of draw, applied abstractly to representative code points
-    under each (active set, tables) combination"""
+    """draw() applied abstractly to a one-character string under each (active set, tables)
+    combination: every cell it stores on the width-1 / width-2 paths must hold the character the
+    active table maps the input to (code points above 255 unchanged).  The character width is left
+    symbolic, so all width paths are explored; the function is analysed as a whole, whatever shape
+    the translation code has."""
     prog = ctx.prog
     draw = ep('draw')
     body = prog.bodies.get(draw)
-    # the closure passed to `map` in draw: first closure created in draw whose body indexes a [char; 256]
-    cands = [c for c in prog.closures_of.get(draw, []) if prog.bodies[c].arg_count == 2 and prog.bodies[c].locals[2]['ty'] == 'char']
-    if not cands:
-        chk.instance('R-TRANSLATE', short(draw), 'mapping closure found', False, what='no per-character mapping closure in draw', undischarged=True)
+    if body is None:
+        chk.instance('R-TRANSLATE', 'Screen::draw', 'draw found', False, what='Screen::draw not found', undischarged=True)
         return
-    clo = cands[0]
-    cb = prog.bodies[clo]
     n = 0
     for active in (0, 1):
         for (g0n, g1n) in (('IBMPC_MAP', 'VT100_MAP'), ('LAT1_MAP', 'VAX42_MAP')):
-            for cp in (0x00, 0x41, 0x5f, 0x6a, 0x7e, 0x80, 0xdb, 0xff, 0x100, 0x2502, 0x4e2d, 0x1f600):
-                eng = Engine(prog, ctx.eff, config=dict(max_steps=50000, check_inv=False))
+            for cp in (0x21, 0x41, 0x5f, 0x60, 0x6a, 0x71, 0x7e, 0x80, 0xa3, 0xdb, 0xe9, 0xff, 0x100, 0x2502, 0x4e2d, 0x1f600):
+                eng = Engine(prog, ctx.eff, config=dict(max_steps=200000, check_inv=False))
                 st = State()
-                scr = inv.screen_init(eng, st)
+                inv.screen_init(eng, st)
                 scr = st.store[inv.S_ROOT]
                 mk = lambda name: CollV('array', '[char; 256]', name, length=NumV(None, 256, 'usize'),
                                         known=tuple(CharV(chr(x)) for x in ref[name]))
                 scr = scr.with_field('g0_charset', mk(g0n)).with_field('g1_charset', mk(g1n))
                 scr = scr.with_field('charset', EnumV('screen::Charset', {active}, {0: StructV('G0', {}), 1: StructV('G1', {})}))
                 st.store[inv.S_ROOT] = scr
-                # closure environment: one captured reference to self (by-ref capture of `self`)
-                envroot = ('H', 'env')
-                caps = {}
-                for i, uv in enumerate(cb.j['upvars']):
-                    # precise captures: `self.charset`, `self.g0_charset`, ... (or `self` itself)
-                    names = [x for x in uv['name'].replace('*', '').replace('(', '').replace(')', '').split('.')[1:] if x]
-                    path = (inv.S_ROOT, tuple(('f', nm, '?') for nm in names))
-                    target = RefV(path, False)
-                    if not names and uv['by_ref']:
-                        r0 = ('H', 'selfslot%d' % i)
-                        st.store[r0] = RefV((inv.S_ROOT, ()), True)
-                        caps[str(i)] = RefV((r0, ()), False)
-                    else:
-                        caps[str(i)] = target
-                st.store[envroot] = ClosureV(clo, StructV('env', caps))
-                envty = cb.locals[1]['ty']
-                env = RefV((envroot, ()), True) if envty.startswith('&') else st.store[envroot]
-                eng.entry_name = 'draw mapping closure cp=U+%04X active=G%d' % (cp, active)
+                stored = []
+
+                def ehook(c, ev, stored=stored):
+                    if ev[0] == 'map.insert' and len(ev) > 3 and isinstance(ev[3], StructV) and ev[3].ty.endswith('CharOpts') and c.fr is not None and c.fr.func == draw:
+                        d = ev[3].fields.get('data')
+                        stored.append(d.known if isinstance(d, StrV) else None)
+                eng.event_hook = ehook
+                eng.entry_name = 'draw(%r) active=G%d' % (chr(cp), active)
+                label = 'U+%04X active G%d (G0=%s G1=%s)' % (cp, active, g0n, g1n)
                 try:
-                    res = eng.exec_body(st, clo, [env, CharV(chr(cp))])
+                    res = eng.exec_body(st, draw, [RefV((inv.S_ROOT, ()), True), StrV(chr(cp))])
                 except Budget as ex:
-                    chk.instance('R-TRANSLATE', short(clo), 'U+%04X under G%d' % (cp, active), False, detail=str(ex), undischarged=True)
+                    chk.instance('R-TRANSLATE', short(draw), label, False, detail=str(ex), undischarged=True)
                     continue
                 tbl = ref[g1n if active else g0n]
                 want = tbl[cp] if cp <= 255 else cp
-                got = sorted({ord(r.known) if isinstance(r, CharV) and r.known is not None else -1 for (s2, r) in res})
+                seen = sorted({x for x in stored if x is not None and x != ''})
+                unknown = sum(1 for x in stored if x is None)
                 n += 1
-                chk.instance('R-TRANSLATE', short(clo), 'U+%04X active G%d (G0=%s G1=%s)' % (cp, active, g0n, g1n), got == [want],
-                             detail='extracted %s, documented U+%04X' % (['U+%04X' % g if g >= 0 else '?' for g in got], want), span=cb.span,
-                             what='code point U+%04X with G%d active translates to %s, documented U+%04X' % (cp, active, got, want))
+                ok = bool(res) and seen == [chr(want)]
+                chk.instance('R-TRANSLATE', short(draw), label, ok,
+                             detail='cells stored hold %s (%d with text that is not a constant: combining paths), documented U+%04X' % (
+                                 ['U+%04X' % ord(x) if len(x) == 1 else repr(x) for x in seen], unknown, want), span=body.span,
+                             what='drawing code point U+%04X with G%d active stores %s, documented U+%04X' % (
+                                 cp, active, ['U+%04X' % ord(x) if len(x) == 1 else repr(x) for x in seen] or 'nothing decidable', want))
     chk.floor('translation cases', n, 40)
